@@ -6,6 +6,7 @@ mod gen;
 mod image;
 mod rewrite;
 mod rng;
+mod threads;
 mod tok;
 mod wire;
 
@@ -370,6 +371,11 @@ fn main() {
             let seed: u64 = args[2].parse().unwrap();
             let n: usize = args[3].parse().unwrap();
             csvs::run(seed, n, &mut out);
+        }
+        "threads" => {
+            let seed: u64 = args[2].parse().unwrap();
+            let n: usize = args[3].parse().unwrap();
+            threads::run(seed, n, &mut out);
         }
         "corpus" => {
             let seed: u64 = args[2].parse().unwrap();
